@@ -14,6 +14,7 @@ import (
 type groupModel struct {
 	cl          *cluster
 	coordinator int32
+	coordHist   []int32
 	loading     bool
 	offsets     map[string]map[string]*storedOffset // group -> "topic/part" -> value
 	commits     []*commitRec
@@ -73,6 +74,7 @@ func (g *groupModel) timedFault(f *cf.Fault) bool {
 	switch f.Do {
 	case "coordinator-move":
 		g.cl.k.logf("fault coordinator-move %d->%d", g.coordinator, f.To)
+		g.coordHist = append(g.coordHist, g.coordinator)
 		g.coordinator = f.To
 		g.cl.noteFault("coordinator-move")
 		return true
